@@ -56,6 +56,7 @@ theorem finishTally_custom {s s' : State} {pid : Nat} {p : Proposal} {passes bur
     (h2 : settleShapeOk = true) (h3 : execInCacheCtx = true) (he : execErrVisible = true) (hb : s.gov = sumAmt s.deps)
     (hn : noSetCustom p.msgs = true) (h : finishTally passes burn res p pid s = .ok s') : s'.custom = s.custom := by
   unfold finishTally at h
+  simp only [refundRun_eq, burnRun_eq] at h
   simp only [h2, Bool.not_true, Bool.false_and, Bool.false_eq_true, if_false] at h
   simp only [if_true] at h
   have settle : ∀ s1 : State,
@@ -100,6 +101,7 @@ theorem tallyOne_custom {s s' : State} {stk : Staking} {id : Nat} (h2 : settleSh
 theorem dropInactive_custom {s s' : State} {id : Nat} (h1 : inactiveSettleShapeOk = true) (ha : All s)
     (hs' : dropInactive id s = .ok s') : s'.custom = s.custom := by
   unfold dropInactive at hs'
+  simp only [refundRun_eq, burnRun_eq] at hs'
   split at hs'
   · cases hs'
   · simp only [h1, if_true] at hs'
